@@ -120,3 +120,40 @@ From DVGen Require Import Gen_cloc.
 Theorem C08_wps_loc_returns_the_layout_slot : forall l1 l2 window0, (1 <= l1)%Z -> (1 <= l2)%Z -> (0 <= window0)%Z ->
   forall r, In r loc_regions -> loc_ok l1 l2 window0 r.
 Proof. exact loc_regions_follow_the_layout. Qed.
+
+(* THE DISTANCE KERNELS AS WRITTEN (Gen_cdist.v: the four dtw_distance* functions regenerated whole by tools/cfun.py,
+   which adds a conjunct `0 <= index < size` to the flag `ok` for EVERY read and write of the malloc'ed two-row buffer
+   and of the two input series): ok = true at the end, for all series, windows, psi values, thresholds, pruning on/off,
+   only_ub on/off and any content of the freshly allocated buffer. *)
+From DV Require Import CLang CDistSpec.
+From DVGen Require Import Gen_cdist.
+
+Theorem C08_c_dtw_distance_accesses_in_bounds :
+  forall (window p m mld : Z) (p1b p1e p2b p2e : nat) (junk : Z -> Cost.cost), (0 <= window)%Z ->
+  forall (f1 f2 : list Z) ce ced cub idist md oub prune, (1 <= List.length f1)%nat -> (1 <= List.length f2)%nat ->
+  snd (c_dtw_distance ce ced cub junk f1 (Z.of_nat (List.length f1)) f2 (Z.of_nat (List.length f2)) idist md mld (Cost.Fin m) oub (Cost.Fin p)
+                      (Z.of_nat p1b) (Z.of_nat p1e) (Z.of_nat p2b) (Z.of_nat p2e) prune window) = true.
+Proof. exact c_dtw_distance_in_bounds. Qed.
+
+Theorem C08_c_dtw_distance_euclidean_accesses_in_bounds :
+  forall (window p m mld : Z) (p1b p1e p2b p2e : nat) (junk : Z -> Cost.cost), (0 <= window)%Z ->
+  forall (f1 f2 : list Z) cub md oub prune, (1 <= List.length f1)%nat -> (1 <= List.length f2)%nat ->
+  snd (c_dtw_distance_euclidean cub junk f1 (Z.of_nat (List.length f1)) f2 (Z.of_nat (List.length f2)) md mld (Cost.Fin m) oub (Cost.Fin p)
+                      (Z.of_nat p1b) (Z.of_nat p1e) (Z.of_nat p2b) (Z.of_nat p2e) prune window) = true.
+Proof. exact c_dtw_distance_euclidean_in_bounds. Qed.
+
+Theorem C08_c_dtw_distance_ndim_accesses_in_bounds :
+  forall (window p m mld : Z) (p1b p1e p2b p2e : nat) (junk : Z -> Cost.cost), (0 <= window)%Z ->
+  forall (s1 s2 : list Dtw.point) (d : nat) ce ced cub idist md oub prune,
+  (forall q, In q s1 -> List.length q = d) -> (forall q, In q s2 -> List.length q = d) -> (1 <= List.length s1)%nat -> (1 <= List.length s2)%nat ->
+  snd (c_dtw_distance_ndim ce ced cub junk (List.concat s1) (Z.of_nat (List.length s1)) (List.concat s2) (Z.of_nat (List.length s2)) (Z.of_nat d)
+                      idist md mld (Cost.Fin m) oub (Cost.Fin p) (Z.of_nat p1b) (Z.of_nat p1e) (Z.of_nat p2b) (Z.of_nat p2e) prune window) = true.
+Proof. exact c_dtw_distance_ndim_in_bounds. Qed.
+
+Theorem C08_c_dtw_distance_ndim_euclidean_accesses_in_bounds :
+  forall (window p m mld : Z) (p1b p1e p2b p2e : nat) (junk : Z -> Cost.cost), (0 <= window)%Z ->
+  forall (s1 s2 : list Dtw.point) (d : nat) cub md oub prune,
+  (forall q, In q s1 -> List.length q = d) -> (forall q, In q s2 -> List.length q = d) -> (1 <= List.length s1)%nat -> (1 <= List.length s2)%nat ->
+  snd (c_dtw_distance_ndim_euclidean cub junk (List.concat s1) (Z.of_nat (List.length s1)) (List.concat s2) (Z.of_nat (List.length s2)) (Z.of_nat d)
+                      md mld (Cost.Fin m) oub (Cost.Fin p) (Z.of_nat p1b) (Z.of_nat p1e) (Z.of_nat p2b) (Z.of_nat p2e) prune window) = true.
+Proof. exact c_dtw_distance_ndim_euclidean_in_bounds. Qed.
